@@ -34,6 +34,16 @@ abbrev str := lp 1
 /-- `writeAgentIDs` / `readAgentIDs`. -/
 abbrev ids := listN 1 id16
 
+/-! Go `unsafe.Sizeof` of the slice element types whose `make` takes its length from the wire
+    (tied to the compiled package by `sizes_tie` in Props/C05.lean). -/
+def sizeofRoute : Nat := 40
+def sizeofPeerInfo : Nat := 48
+def sizeofListenerInfo : Nat := 32
+def sizeofString : Nat := 16
+def sizeofRouteAdvertise : Nat := 120
+def sizeofRouteWithdraw : Nat := 72
+def sizeofNodeInfoAdvertise : Nat := 288
+
 /-! ### frame header -/
 
 /-- (type, flags, streamID, payload) -/
@@ -109,9 +119,10 @@ def pathOK (d : Bytes) : Bool := (ids.dec d).isSome
 
 /-- `EncryptedData` wrapper holding a route path: (encrypted, data); a plaintext path must parse. -/
 def encPathC := refine (seq bool (lp 2)) (fun e => e.1 || pathOK e.2)
+  (fun e => if e.1 then 0 else ids.alloc e.2)   -- `DecodePath` on a plaintext path
 
 /-- (origin, displayName, sequence, routes, encPath, seenBy) -/
-def routeAdvertiseC := seq id16 (seq str (seq u64 (seq (listN 1 advRouteC) (seq encPathC ids))))
+def routeAdvertiseC := seq id16 (seq str (seq u64 (seq (listN 1 advRouteC sizeofRoute) (seq encPathC ids))))
 
 /-- `prefixLength(family, 0)` as used by RouteWithdraw. -/
 def wdPrefixLen (fam : Nat) : Nat :=
@@ -120,7 +131,7 @@ def wdPrefixLen (fam : Nat) : Nat :=
 def wdRouteC := seq (dep (seq u8 u8) (fun p => bytesN (wdPrefixLen p.1))) u16
 
 /-- (origin, sequence, routes, seenBy) -/
-def routeWithdrawC := seq id16 (seq u64 (seq (listN 1 wdRouteC) ids))
+def routeWithdrawC := seq id16 (seq u64 (seq (listN 1 wdRouteC sizeofRoute) ids))
 
 /-- (requestID, controlType, targetAgent, path, data) -/
 def controlRequestC := seq u64 (seq u8 (seq id16 (seq ids (lp 4))))
@@ -257,6 +268,26 @@ def decodeNodeInfo (buf : Bytes) : Option NodeInfo :=
               let (icmp, _) := optBool r10
               some { base with fls := fls, shells := shells, ft := ft, sh := sh, icmp := icmp }
 
+/-- allocation trace of `DecodeNodeInfo` (upper bound): the strict head, `make([]PeerConnectionInfo,
+    0, min(count, 50))` and the peers, then for the optional tail the two capped `make`s and at
+    most the remaining bytes for its strings. -/
+def nodeInfoAlloc (buf : Bytes) : Nat :=
+  if buf.length < 5 + 32 then 0 else
+  niHeadC.alloc buf +
+  match niHeadC.dec buf with
+  | none => 0
+  | some (_, r0) =>
+    match u8.dec r0 with
+    | none => 0
+    | some (pc, r1) =>
+      sizeofPeerInfo * min pc maxPeers + repAlloc peerC (min pc maxPeers) r1 +
+      match repDec peerC (min pc maxPeers) r1 with
+      | none => 0
+      | some (_, r2) =>
+        match key32.dec r2 with
+        | none => 0
+        | some (_, r3) => sizeofListenerInfo * maxFls + sizeofString * maxShells + r3.length
+
 def nodeInfoWF (n : NodeInfo) : Bool :=
   niHeadC.wf (n.name, n.host, n.os, n.arch, n.ver, n.start, n.ips)
     && decide (n.peers.length ≤ maxPeers) && n.peers.all peerC.wf
@@ -268,6 +299,7 @@ def nodeInfoOK (d : Bytes) : Bool := (decodeNodeInfo d).isSome
 
 /-- (origin, sequence, (encrypted, data), seenBy); plaintext NodeInfo must parse. -/
 def encInfoC := refine (seq bool (lp 2)) (fun e => e.1 || nodeInfoOK e.2)
+  (fun e => if e.1 then 0 else nodeInfoAlloc e.2)   -- `DecodeNodeInfo` on plaintext info
 def nodeInfoAdvertiseC := seq id16 (seq u64 (seq encInfoC ids))
 
 /-! ### QueuedState -/
@@ -360,6 +392,51 @@ def queuedStateWF (q : QueuedState) : Bool :=
     && q.nodeInfos.all (fun r => nodeInfoAdvertiseC.wf r && decide ((nodeInfoAdvertiseC.enc r).length < 65536))
     && (match q.sleep with | some c => sleepC.wf c | none => true)
     && (match q.wake with | some c => sleepC.wf c | none => true)
+
+/-- allocation of one blob list: each entry's `readBytes(length)` plus what its nested decoder
+    allocates (entries are processed up to the first truncated one) -/
+def blobAlloc (topAlloc : Bytes → Nat) : Nat → Bytes → Nat
+  | 0, _ => 0
+  | n+1, bs =>
+    match (lp 2).dec bs with
+    | none => 0
+    | some (blob, r) => blob.length + topAlloc blob + blobAlloc topAlloc n r
+
+def routeAdvertiseAlloc (bs : Bytes) : Nat := decodeTopAlloc 28 routeAdvertiseC bs
+def routeWithdrawAlloc (bs : Bytes) : Nat := decodeTopAlloc 26 routeWithdrawC bs
+def nodeInfoAdvertiseAlloc (bs : Bytes) : Nat := decodeTopAlloc 28 nodeInfoAdvertiseC bs
+def cmdAlloc (bs : Bytes) : Nat := decodeTopAlloc cmdMinLen sleepC bs
+
+/-- allocation trace of the fixed `DecodeQueuedState`: the three capped reservations (elements ×
+    element size), the blob lists, and the two command decoders on what follows. -/
+def queuedAlloc (buf : Bytes) : Nat :=
+  if buf.length < 8 then 0 else
+  match u16.dec buf with
+  | none => 0
+  | some (rc, r0) =>
+    sizeofRouteAdvertise * min rc (r0.length / 2) + blobAlloc routeAdvertiseAlloc rc r0 +
+    match blobList decodeRouteAdvertise rc r0 with
+    | none => 0
+    | some (_, r1) =>
+      match u16.dec r1 with
+      | none => 0
+      | some (wc, r2) =>
+        sizeofRouteWithdraw * min wc (r2.length / 2) + blobAlloc routeWithdrawAlloc wc r2 +
+        match blobList decodeRouteWithdraw wc r2 with
+        | none => 0
+        | some (_, r3) =>
+          match u16.dec r3 with
+          | none => 0
+          | some (nc, r4) =>
+            sizeofNodeInfoAdvertise * min nc (r4.length / 2) + blobAlloc nodeInfoAdvertiseAlloc nc r4 +
+            match blobList decodeNodeInfoAdvertise nc r4 with
+            | none => 0
+            | some (_, r5) =>
+              -- sleep command decoded from everything after its flag (`cmdAlloc`); the wake command
+              -- from a suffix of it: at most the remaining bytes plus one `make([]AgentID, ≤255)`
+              match r5 with
+              | [] => 0
+              | _ :: r6 => cmdAlloc r6 + (16 * 255 + r6.length)
 
 /-- Number of slice elements `DecodeQueuedState` reserves up front (`make(_, 0, n)` ×3) for a
     given input: each count is capped by the bytes that remain (an entry needs ≥ 2 bytes). -/
